@@ -96,7 +96,7 @@ impl Gen {
     /// an initialiser expression: (kind, lines) — single line unless it is a block
     fn init(&mut self, raising: bool) -> (String, Vec<String>) {
         let n = self.ctr;
-        let c = self.rng.below(if raising { 26 } else { 24 });
+        let c = self.rng.below(if raising { 27 } else { 24 });
         let (k, lines): (&str, Vec<String>) = match c {
             0 => ("pure-lit", vec!["1".into()]),
             1 => ("pure-call", vec!["idf(2)".into()]),
@@ -122,6 +122,7 @@ impl Gen {
             22 => ("dict-proc-call", vec![format!("{{\"a\": one!(\"u{}\")}}", n)]),
             23 => ("set-proc-call", vec![format!("{{one!(\"u{}\")}}", n)]),
             24 => ("raising-call", vec!["int(\"a\")".into()]),
+            25 => ("raising-div", vec!["7 // zero".into()]),
             _ => ("raising-index", vec!["idf([1, 2])[one!(\"r\") + 5]".into()]),
         };
         self.note(&format!("init:{}", k));
@@ -196,6 +197,7 @@ impl Gen {
     fn program(&mut self, raising: bool) -> String {
         let mut lines: Vec<String> = vec![
             "x = 1".into(),
+            "zero = 0".into(),
             "v = ![1, 2]".into(),
             "one! s =".into(), "    print! s".into(), "    1".into(),
             "idf x = x".into(),
@@ -204,7 +206,16 @@ impl Gen {
             "print! \"start\", idf(x), g(1), k(a := 1)".into(),
         ];
         let n = 3 + self.rng.below(8);
-        for _ in 0..n { lines.extend(self.stmt(raising, 0)); }
+        let at = self.rng.below(n);
+        for i in 0..n {
+            if raising && i == at {
+                // the recorded finding's class: an unused private definition whose effect-free initialiser raises
+                self.note("stmt:unused-raising-def");
+                let u = self.fresh("u");
+                lines.push(if self.rng.chance(1, 2) { format!("{} = int(\"a\")", u) } else { format!("{} = 7 // zero", u) });
+            }
+            lines.extend(self.stmt(raising, 0));
+        }
         lines.push("print! \"end\", v".into());
         lines.join("\n") + "\n"
     }
